@@ -102,16 +102,17 @@ func main() {
 				}
 			}
 			return []fw.TLCJob{
-				job("mc:send:fixed", "Notify_mc.cfg", with(pSend, map[string]string{"MAXSEND": "2", "MAXBCAST": "1", "INVS": invSendFixed})),
+				job("mc:send:fixed", "Notify_mc.cfg", with(pSend, map[string]string{"MAXSEND": "1", "MAXBCAST": "1", "INVS": invSendFixed})),
+				job("mc:send:unicast", "Notify_mc.cfg", with(pSend, map[string]string{"NS": "3", "MAXSEND": "3", "MAXCONN": "2", "INVS": invSendFixed})),
 				job("mc:send:asis", "Notify_mc.cfg", with(pSend, map[string]string{"DEVS": devSend, "MAXSEND": "1", "MAXBCAST": "1", "INVS": invSendAsIs})),
 				job("mc:client:fixed", "Notify_mc.cfg", with(pClient, map[string]string{"FLAGS": `{"ack", "exp", "bad", "unknown"}`, "INVS": invClientFixed})),
-				job("mc:client:listen", "Notify_mc.cfg", with(pClient, map[string]string{"FLAGS": `{"listen", "unknown", "error"}`, "INVS": invClientFixed})),
-				job("mc:client:asis", "Notify_mc.cfg", with(pClient, map[string]string{"DEVS": devClient, "FLAGS": `{"ack", "listen"}`, "INVS": invClientAsIs})),
+				job("mc:client:listen", "Notify_mc.cfg", with(pClient, map[string]string{"FLAGS": `{"listen", "unknown", "error"}`, "NH": "1", "MAXADD": "1", "INVS": invClientFixed})),
+				job("mc:client:asis", "Notify_mc.cfg", with(pClient, map[string]string{"DEVS": devClient, "FLAGS": `{"ack"}`, "MAXADD": "3", "INVS": invClientAsIs})),
 				job("mc:push:fixed", "Notify_mc.cfg", with(pPush, map[string]string{"NP": "1", "MAXPUSH": "4", "INVS": invPushFixed})),
 				job("mc:push:conc", "Notify_mc.cfg", with(pPush, map[string]string{"NP": "2", "INVS": invPushFixed})),
-				job("mc:push:asis", "Notify_mc.cfg", with(pPush, map[string]string{"DEVS": devPush, "NP": "2", "INVS": invPushAsIs})),
-				job("live:send", "Notify_mc.cfg", with(pSend, map[string]string{"DEVS": devSend, "MAXCONN": "2", "MAXSEND": "2", "MAXBCAST": "1", "SPEC": "LiveSpec", "PROPS": "PROPERTIES SendReturns"})),
-				job("live:client", "Notify_mc.cfg", with(pClient, map[string]string{"DEVS": devClient, "SPEC": "LiveSpec", "PROPS": "PROPERTIES ReaderFree"})),
+				job("mc:push:asis", "Notify_mc.cfg", with(pPush, map[string]string{"DEVS": devPush, "NP": "2", "MAXMOVE": "1", "INVS": invPushAsIs})),
+				job("live:send", "Notify_mc.cfg", with(pSend, map[string]string{"DEVS": devSend, "MAXCONN": "2", "MAXSEND": "1", "MAXBCAST": "1", "SPEC": "LiveSpec", "PROPS": "PROPERTIES SendReturns"})),
+				job("live:client", "Notify_mc.cfg", with(pClient, map[string]string{"DEVS": devClient, "MAXNOTIF": "1", "MAXADD": "3", "SPEC": "LiveSpec", "PROPS": "PROPERTIES ReaderFree"})),
 				job("live:push", "Notify_mc.cfg", with(pPush, map[string]string{"DEVS": devPush, "NP": "2", "MAXPUSH": "2", "MAXMOVE": "1", "MAXCHANGE": "1", "SPEC": "LiveSpec", "PROPS": "PROPERTIES PushDrains PushersReturn"})),
 			}
 		},
@@ -131,7 +132,7 @@ func main() {
 			}
 			n := "40"
 			if env.Tier == "thorough" {
-				n = "250"
+				n = "200"
 				jobs = append(jobs,
 					job("gen:send:bcast", "Notify_gen.cfg", with(pSend, map[string]string{"NS": "1", "MAXCONN": "3", "MAXSEND": "0", "MAXBCAST": "1", "MINLEN": "5"})),
 					job("gen:client:n2", "Notify_gen.cfg", with(pClient, map[string]string{"DEVS": devClient, "NG": "1", "MAXNOTIF": "2", "FLAGS": `{"ack", "exp", "bad"}`, "MINLEN": "8"})),
@@ -180,11 +181,11 @@ func main() {
 				if q {
 					return 20
 				}
-				return 250
+				return 200
 			case q:
 				return 75
 			}
-			return 1500
+			return 700
 		},
 		ExtraBeh:    extraBehaviours,
 		Drive:       drive,
